@@ -119,8 +119,12 @@ pub trait Prop: 'static {
     /// Runs the case against the real code and the oracle. Must not leak state.
     fn run(case: &Self::Case) -> Outcome;
     /// Extra stages (fuzz campaigns, cross-process comparisons) run by the parent.
-    fn extra(_tier: Tier, _seed: u64, _ev: &mut ExtraEvidence) -> Vec<Violation> {
-        Vec::new()
+    fn extra(tier: Tier, seed: u64, ev: &mut ExtraEvidence) -> Vec<Violation> {
+        if tier == Tier::Thorough {
+            fuzz_extra(Self::ID, seed, ev)
+        } else {
+            Vec::new()
+        }
     }
     /// A worker killed by a signal while executing a case counts as a violation (memory safety is the property).
     fn signal_is_violation() -> bool {
@@ -265,7 +269,7 @@ struct Stats {
     frozen: bool,
 }
 
-fn run_one<P: Prop>(case: &P::Case) -> Outcome {
+pub fn run_one<P: Prop>(case: &P::Case) -> Outcome {
     // des installs (and afterwards removes) its own panic hook around every simulation run
     install_quiet_panic_hook();
     match catch(|| P::run(case)) {
@@ -806,6 +810,17 @@ pub fn idx(i: u16, len: usize) -> usize {
 /// Thorough-tier extra for C02/C10/C11: the same generators and oracles against `des` built without the `cqueue`
 /// feature (BinaryHeap event set). Runs the separate crate /verif/harness-heap as a child.
 #[cfg(not(vcheck_heap_backend))]
+/// Engine 2 for every property: a coverage-guided libFuzzer campaign whose bytes are the random stream of the
+/// property's own proptest strategy (target `prop_bytes`), same interpreter and oracle.
+#[cfg(not(any(vcheck_heap_backend, vcheck_miri)))]
+pub fn fuzz_extra(id: &str, seed: u64, ev: &mut ExtraEvidence) -> Vec<Violation> {
+    crate::fuzz::prop_bytes(id, seed, ev)
+}
+#[cfg(any(vcheck_heap_backend, vcheck_miri))]
+pub fn fuzz_extra(_id: &str, _seed: u64, _ev: &mut ExtraEvidence) -> Vec<Violation> {
+    Vec::new()
+}
+
 /// Thorough tier of C15: the same histories, shorter, executed under Miri (`harness-miri`), 16 shards in parallel.
 /// Miri's aliasing model (Stacked/Tree Borrows) is switched off: des-cqueue's allocator keeps raw pointers next to `&mut`
 /// by design, which both experimental models reject at the first allocation; what remains checked is what C15 states:
